@@ -3,7 +3,7 @@
 # timestamp, on a file system with 1-second timestamps, is not seen as modified:
 # `fclones remove` destroys the last copy of the original content.
 # Needs root (loop mount of an ext4 image with 128-byte inodes = 1 s timestamp granularity).
-CHECKOUT=${1:-/tmp/hunt/n2}
+CHECKOUT=${1:-/repo}
 F=$CHECKOUT/target/debug/fclones
 D=$(mktemp -d)
 cleanup() { cd /; umount "$D/mnt" 2>/dev/null; rm -rf "$D"; }
